@@ -24,6 +24,7 @@ import (
 	"context"
 	"errors"
 	"fmt"
+	"math"
 	"os"
 	"sort"
 	"testing"
@@ -48,6 +49,10 @@ type DOp struct {
 	// (exact serialized length of the block resulting from this add) + Delta.
 	SetThr bool `json:"set_thr"`
 	Delta  int  `json:"delta"`
+	// Oversize (add only): as in [main] - a child the dag-pb node refuses (cumulative size over
+	// 2^63-1). The threshold is moved well above the directory first, so no decision is judged
+	// on this call; the following boundary decisions show whether the attempt left a trace.
+	Oversize bool `json:"oversize,omitempty"`
 }
 
 type DCase struct {
@@ -57,7 +62,10 @@ type DCase struct {
 	Sec      int64    `json:"sec"`
 	Nsec     int64    `json:"nsec"`
 	CidV1    bool     `json:"cid_v1"`
-	Ops      []DOp    `json:"ops"`
+	// GlobalBlock: as in [main] - the package-global HAMTSizeEstimation is SizeEstimationBlock
+	// while the case runs, so loaded directories are in block mode from construction on.
+	GlobalBlock bool  `json:"global_block,omitempty"`
+	Ops         []DOp `json:"ops"`
 }
 
 // ---------------------------------------------------------------------------
@@ -125,6 +133,7 @@ func genDecision(t *rapid.T) DCase {
 		}
 	}
 	c.CidV1 = rapid.Bool().Draw(t, "cidv1")
+	c.GlobalBlock = rapid.Bool().Draw(t, "globalblock")
 
 	nops := rapid.IntRange(2, kit.Scale(16, 30)).Draw(t, "nops")
 	present := map[int]bool{}
@@ -149,6 +158,12 @@ func genDecision(t *rapid.T) DCase {
 				idx = rapid.IntRange(0, len(c.Names)-1).Draw(t, "name")
 			}
 			op := DOp{Kind: "add", Name: idx, Child: genDecisionChild(t)}
+			if rapid.IntRange(0, 9).Draw(t, "oversize") == 0 {
+				op.Oversize = true
+				c.Ops = append(c.Ops, op)
+				delete(present, idx) // refused; a refused replacement has already dropped the old entry
+				continue
+			}
 			op.SetThr = rapid.IntRange(0, 3).Draw(t, "setthr") != 0
 			if op.SetThr {
 				op.Delta = genDelta(t)
@@ -157,7 +172,7 @@ func genDecision(t *rapid.T) DCase {
 			present[idx] = true
 		case k <= 9: // remove, mostly of a present name
 			idx := rapid.IntRange(-1, len(c.Names)-1).Draw(t, "name")
-			if rapid.IntRange(0, 3).Draw(t, "present") != 0 {
+			if len(have) > 0 && rapid.IntRange(0, 3).Draw(t, "present") != 0 {
 				idx = rapid.SampledFrom(have).Draw(t, "pname")
 			}
 			c.Ops = append(c.Ops, DOp{Kind: "remove", Name: idx})
@@ -223,6 +238,11 @@ func runDecision(c DCase) kit.Result {
 	if c.HasMtime {
 		mtime = time.Unix(c.Sec, c.Nsec)
 	}
+	if c.GlobalBlock {
+		// cases run one at a time in this process; restored before the next case
+		defer func(old uio.SizeEstimationMode) { uio.HAMTSizeEstimation = old }(uio.HAMTSizeEstimation)
+		uio.HAMTSizeEstimation = uio.SizeEstimationBlock
+	}
 	opts := []uio.DirectoryOption{uio.WithSizeEstimationMode(uio.SizeEstimationBlock), uio.WithStat(mode, mtime)}
 	if c.CidV1 {
 		opts = append(opts, uio.WithCidBuilder(cid.V1Builder{Codec: cid.DagProtobuf, MhType: mh.SHA2_256}))
@@ -287,6 +307,7 @@ func runDecision(c DCase) kit.Result {
 		boundary, boundaryRepl, boundaryReplClass int // decisions taken with |exact-threshold| <= 1
 		sharded, stayedAt, afterRemove            int
 		removedSinceDecision                      bool
+		rejected, boundaryAfterReject, metaLoads  int
 	)
 	for i, op := range c.Ops {
 		when := fmt.Sprintf("op %d (%s)", i, op.Kind)
@@ -294,6 +315,40 @@ func runDecision(c DCase) kit.Result {
 		case "add":
 			if op.Name < 0 || op.Name >= len(c.Names) {
 				return kit.Result{}
+			}
+			if op.Oversize {
+				big, ok := oversizeChild(op.Child)
+				if !ok {
+					return kit.Result{}
+				}
+				// no decision is judged on this call: threshold far above the block even with this link
+				thr = len(refDirNode(c, mode, mtime, model).RawData()) + 1000
+				dir.SetHAMTShardingSize(thr)
+				err := dir.AddChild(ctx, c.Names[op.Name], big)
+				if isHAMT() {
+					return kit.Fail("%s: directory became a HAMT although its block, even with the offered link (< 450 bytes), stays over 500 bytes below the threshold %d", when, thr)
+				}
+				// the model follows the directory (what a refused add / replacement leaves behind
+				// is not this property's business); sizes must then be exact for what is there
+				nd, gerr := dir.GetNode()
+				if gerr != nil {
+					return kit.Fail("%s: GetNode: %v", when, gerr)
+				}
+				if l, lerr := nd.(*mdag.ProtoNode).GetNodeLink(c.Names[op.Name]); lerr == nil {
+					if l.Size > math.MaxInt64 {
+						return kit.Result{}
+					}
+					model[op.Name] = dent{l.Cid, l.Size}
+				} else {
+					delete(model, op.Name)
+				}
+				if err != nil {
+					rejected++
+				}
+				if r := basicExact(when, len(refDirNode(c, mode, mtime, model).RawData())); r != nil {
+					return *r
+				}
+				break
 			}
 			child, ts := kit.MakeChild(op.Child)
 			old, had := model[op.Name]
@@ -331,6 +386,9 @@ func runDecision(c DCase) kit.Result {
 				if removedSinceDecision {
 					afterRemove++
 				}
+				if rejected > 0 {
+					boundaryAfterReject++
+				}
 				if d == 0 {
 					stayedAt++
 				}
@@ -341,6 +399,9 @@ func runDecision(c DCase) kit.Result {
 				// judged; continue the history on a basic directory holding the same entries
 				if err := load(ref); err != nil {
 					return kit.Fail("%s: reload of the reference node: %v", when, err)
+				}
+				if c.GlobalBlock && (mode != 0 || c.HasMtime) {
+					metaLoads++
 				}
 			}
 			if r := basicExact(when, exact); r != nil {
@@ -384,6 +445,9 @@ func runDecision(c DCase) kit.Result {
 			if err := load(pn); err != nil {
 				return kit.Fail("%s: %v", when, err)
 			}
+			if c.GlobalBlock && (mode != 0 || c.HasMtime) {
+				metaLoads++
+			}
 			if r := basicExact(when, len(refDirNode(c, mode, mtime, model).RawData())); r != nil {
 				return *r
 			}
@@ -414,12 +478,24 @@ func runDecision(c DCase) kit.Result {
 	if c.HasMtime && (c.Sec < 0 || c.Nsec != 0) {
 		cls = append(cls, "mtime:negative-or-subsecond")
 	}
-	return kit.Result{NonTrivial: boundaryReplClass > 0 || afterRemove > 0, Classes: cls}
+	if c.GlobalBlock {
+		cls = append(cls, "block-mode-from-global")
+	}
+	if metaLoads > 0 {
+		cls = append(cls, "load-with-metadata-under-global-block-mode")
+	}
+	if rejected > 0 {
+		cls = append(cls, "add-rejected-by-node(tsize-overflow)")
+	}
+	if boundaryAfterReject > 0 {
+		cls = append(cls, "boundary-decision-after-rejected-add")
+	}
+	return kit.Result{NonTrivial: boundaryReplClass > 0 || afterRemove > 0 || boundaryAfterReject > 0, Classes: cls}
 }
 
 var decisionSpec = kit.Spec[DCase]{
 	Prop: "C17", Name: "decision",
-	Rule:  "DynamicDirectory in block-size mode holding a BasicDirectory, mode 0..07777, mtime over sign/nanosecond classes, 1-6 non-empty names up to 300 bytes, targets and Tsize as in [main], 2-16 (thorough 30) ops add/replace/remove/reload; before 3 of 4 adds the per-directory threshold (SetHAMTShardingSize) is placed at exact+d, d mostly in {-1,0,+1} else -12..12, where exact = length of an independently serialized directory node holding the resulting entries; after every AddChild: became HAMT <=> exact > threshold (then the history continues on a basic directory loaded from the reference node), and while basic len(RawData()) == estimate == exact; non-trivial = a decision within 1 byte of the threshold was taken for a replacement that changes the Tsize varint class, or for an add following a removal",
+	Rule:  "DynamicDirectory in block-size mode holding a BasicDirectory, mode 0..07777, mtime over sign/nanosecond classes, 1-6 non-empty names up to 300 bytes, targets and Tsize as in [main], 2-16 (thorough 30) ops add/replace/remove/reload/add refused by the dag-pb node (threshold moved away first); in half the cases the package-global HAMTSizeEstimation is block mode too; before 3 of 4 adds the per-directory threshold (SetHAMTShardingSize) is placed at exact+d, d mostly in {-1,0,+1} else -12..12, where exact = length of an independently serialized directory node holding the resulting entries; after every AddChild: became HAMT <=> exact > threshold (then the history continues on a basic directory loaded from the reference node), and while basic len(RawData()) == estimate == exact; non-trivial = a decision within 1 byte of the threshold was taken for a replacement that changes the Tsize varint class, or for an add following a removal or a rejected add",
 	Quick: 5000, Thorough: 40000,
 	Gen: genDecision, Run: runDecision,
 }
